@@ -521,7 +521,33 @@ def rule_fit(R):
     R.floor("fit", n, 1, "direct encodes in public operations")
 
 
+def rule_negotiated(R):
+    """auto-downgrade compares against the Maximum QoS of the CONNACK of this connection"""
+    roles.clause_negotiated_per_connection(R, "qos", ("max_qos",))
+
+
+def rule_dead(R):
+    """requests on a dead handle are rejected: a handle is dead once a fatal error (transport loss, broker DISCONNECT,
+    fatal protocol violation) was reported, so every exit that reports one first passes the latch that the `live` gate of
+    the operations tests -- the C11 latch clauses, re-evaluated under C19"""
+    from . import c11
+    from ..engine import Run
+    tmp = Run("C11", R.f, R.cfg)
+    tmp.rule("fatal", c11.rule_fatal)
+    n = 0
+    for o in tmp.obs:
+        parts = o.key.split("/", 2)
+        if len(parts) == 3 and parts[1].startswith("fatal"):
+            n += 1
+            R.ob("dead/%s/%s" % (parts[1], parts[2]), o.ok, o.msg, where=o.where, detail=o.detail)
+        elif "ANCHOR-LOST" in o.key:
+            R.ob("dead/" + o.key.split("/", 1)[1], o.ok, o.msg, where=o.where, detail=o.detail)
+    R.floor("dead", n, 10, "fatal error sites")
+
+
 def run(R):
+    R.rule("dead", rule_dead)
+    R.rule("negotiated", rule_negotiated)
     R.rule("table", rule_table)
     R.rule("value", rule_value)
     R.rule("coverage", rule_coverage)
